@@ -49,6 +49,11 @@ def run(ctx):
     # that are kept sorted and binary-searched only show a lost order from three entries on)
     hubs = ctx.tlc_gen("MC_GraphStore", GEN.format(maxn=4, maxe=4, labels=L1, types=T1, vals='{"v1"}', maxh=18, full="FALSE", kf="FALSE",
                                                    view="", emit="", inv="SimEmit"), "hubs", simulate=(400 if q else 6000, 19), workers=4)
+    # sequence-exhaustive hub families: 4 unlabelled nodes, 3-4 relationships from (to) the first node in every order, deletions
+    for spec_name in ("SpecHubOut", "SpecHubIn"):
+        hubs += ctx.tlc_gen("MC_GraphStore", GEN.format(maxn=4, maxe=4, labels="{}", types=T1, vals='{"v1"}', maxh=9 if q else 10, full="FALSE",
+                                                        kf="FALSE", view="", emit="ACTION_CONSTRAINT EmitLeaf", inv="")
+                            .replace("SPECIFICATION Spec", "SPECIFICATION " + spec_name), "hub-" + spec_name, workers=4, timeout=1800)
     ctx.assume("ids <= 3 (<= 4 in the hub walks); labels {A,B}; types {T,U}; one property key p; stub relationships are created between live nodes only",
                "while a bulk load is open (stub inserted, finish_bulk_load not yet called) the type index and relationships-between "
                "lookups are not checked")
